@@ -21,9 +21,53 @@ WALL_FACTOR = int(os.environ.get("PYVC_WALL_FACTOR", "5"))
 CVC5 = "/usr/bin/cvc5"
 
 
+# "gates": names of FREE Boolean constants that contract modules use to state a family of clauses as `GATE -> clause` (the ghost-trace
+# clauses of the in-context contracts).  For a goal that does not mention a gate, the hypotheses `GATE -> X` (top-level conjuncts) are
+# left out: proving from FEWER hypotheses is sound, and what is proved for the gate False follows for the gate True because the gate
+# occurs only as the antecedent of hypotheses (H(True) implies H(False)).  Without this the trace quantifiers sit in front of the
+# solver while it proves the clauses about the final state (7 obligations of 100 - 200 s each, decided on a retry seed only).
+GATES = set()
+
+
+def _mentions(term, names, _seen=None):
+    seen = set() if _seen is None else _seen
+    todo = [term]
+    while todo:
+        t = todo.pop()
+        i = t.get_id()
+        if i in seen:
+            continue
+        seen.add(i)
+        if z3.is_quantifier(t):
+            todo.append(t.body())
+        elif z3.is_app(t):
+            if t.num_args() == 0:
+                if t.decl().name() in names:
+                    return True
+            else:
+                todo.extend(t.children())
+    return False
+
+
+def gate_filter(hyps, goal):
+    if not GATES or _mentions(goal, GATES):
+        return hyps
+    out = []
+    for h in hyps:
+        parts = [h]
+        if z3.is_and(h):
+            from .engine import flatten_and
+            parts = flatten_and(h)
+        for c in parts:
+            if z3.is_implies(c) and z3.is_const(c.arg(0)) and c.arg(0).decl().name() in GATES:
+                continue
+            out.append(c)
+    return out
+
+
 def to_smt2(obl):
     s = z3.Solver()
-    for h in obl.hyps:
+    for h in gate_filter(obl.hyps, obl.goal):
         s.add(h)
     for a in lit_axioms():
         s.add(a)
